@@ -523,7 +523,8 @@ def C21_full (writer : (pkcs8 cert : Bytes) → (pw : List Nat) → Bytes)
     (keyOut : Bytes → Option Bytes) : Prop :=
   ∀ (pkcs8 cert : Bytes) (pw : List Nat), (∀ r ∈ pw, r < 0x10000 ∧ ¬ isSurrogate r) →
     ∃ enc pwUsed, bmpString pw = some enc ∧ openPfx (writer pkcs8 cert pw) pw = some (.macOk pwUsed) ∧
-      ∃ c k, readBags (writer pkcs8 cert pw) pwUsed = some [c, k] ∧ c.type = "CERTIFICATE" ∧ c.bytes = cert ∧
-        k.type = "PRIVATE-KEY" ∧ some k.bytes = keyOut pkcs8
+      ∃ bc bk c k, readBags (writer pkcs8 cert pw) pwUsed = .ok [bc, bk] ∧
+        decodeBag bc pwUsed = .ok (some c) ∧ decodeBag bk pwUsed = .ok (some k) ∧
+        c.type = "CERTIFICATE" ∧ c.bytes = cert ∧ k.type = "PRIVATE-KEY" ∧ some k.bytes = keyOut pkcs8
 
 end XC.C21
